@@ -118,6 +118,18 @@ CHECKS = {
         note='Trusted: Lean kernel; standard axioms; AST extraction of the flag table; the translation is a parameter of the model (pure function of path, entry, safety) - '
              'process history / hash seed / thread schedule effects cannot be exhibited by the model and are sampled; the workbook file does not change between calls.',
         technique='Lean 4 invariant proof over a regenerated flag table (Tie A) + differential correspondence + cross-process/thread determinism sampling', design='5/C09'),
+    'C03': dict(
+        text='Lean 4 theorems over the model of CellTranslator._set_cell_to_context / translate / translate_file (recursive descent memoised by uid, cells registered after their '
+             'formula, in-progress set): a successful translation from an entry registers exactly the cells the entry transitively depends on (slice_closed, both directions); '
+             'registration order is topological so no member lies on a cycle (ok_no_cycle); the parser exception arises exactly when the entry depends on a cycle (parser_cycle, '
+             'cycle_rejected); with a recursion budget above the number of cells the descent never runs out of depth (enough_fuel, pigeonhole on the in-progress path), hence '
+             'translate_total: closed slice or parser exception, decided by reachability of a cycle; the value of a cell is determined by the formulas of the cells it reaches '
+             '(evalX_congr, slice_faithful), so slice and whole-workbook classes agree on every slice member under any overrides (slice_eq_whole). '
+             'Tie B: random graphs over 1-3 sheets incl. areas and cross-sheet edges, every cell as entry: generated member sets vs model and vs an independent reachability '
+             'oracle, slice-vs-whole values on the real code, cyclic variants (self, through areas, through IF branches never taken).',
+        note='Trusted: Lean kernel; standard axioms; hand model tied by correspondence; formula evaluation = the C13 fragment evaluator; sub-expression methods and their '
+             'numbering/de-duplication are not in the abstract model (covered by slice-vs-whole values on shared-prefix graphs); COLUMN(area) spill emulation is not generated.',
+        technique='Lean 4 proof (DFS invariants: closure, topological order, path/cycle, pigeonhole termination) + differential correspondence + slice-vs-whole law', design='5/C03'),
 }
 
 WIP = set()   # built, proofs in progress: not claimed until green
